@@ -461,6 +461,11 @@ func c01G2() []*C01Case {
 // through the binary, i.e. a fresh process.
 func c01Hostile() []string {
 	out := c01HostileFixed()
+	// string literals and quoted keys ending in a run of backslashes
+	for n := 1; n <= 6; n++ {
+		bs := strings.Repeat("\\", n)
+		out = append(out, "BEGIN { x = \"a"+bs+"\"\nprint x }", "BEGIN { o = { \"k"+bs+"\": 1 }\nprint o }", "BEGIN { print '"+bs+"' ~ \""+bs+"\" }")
+	}
 	makers := []string{"a[0] = 1", "a[2] = 1", "a.k = 1", "a.b[0] = 1 ; a = a.b", "a.b.c = 1 ; a = a.b", "a = []", "a = {}", "a = \"s\"", "a = 2.5", "a = \"x,y\".split(\",\")", "a = [2, 1].sort()",
 		"a = {k: 1}.pluck(\"k\")", "a = $", "a = json([1])", "a = num(\"3\")", "a = /x/", "a = null", "a = true"}
 	uses := []string{"print a.length()", "a.push(2) ; print a", "print a.pop()", "print a.popfirst()", "print a.contains(1)", "print a.sort()", "print a.pluck(\"k\")", "print a.split(\"\")",
@@ -486,7 +491,7 @@ func c01HostileFixed() []string {
 		"BEGIN { a = [] ; a[0] = a ; print a ; print json(a) }", "BEGIN { o = {} ; o.o = o ; print o ; x = json(o) }", "{ $ = $ ; $.x = $ ; print }", "BEGIN { next }", "END { next }",
 		"BEGIN { x = /" + rep("(a*)*", 200) + "b/ ; print \"" + rep("a", 2000) + "\" ~ x }", "BEGIN { print 1 % 0.5, 0 % 0 }", "BEGIN { print 1e5 }", "BEGIN { print 1.2.3 }", "BEGIN { print 1..floor() }",
 		"\x00", "\xff", "BEGIN { print \"\xff\xfe\" }", "é", "BEGIN{$++}''~'('", "$ $ $", "BEGIN { f = printf ; f(\"x\") }", "BEGIN { printf(printf) }", "BEGIN { json(json) }", "BEGIN { x = num ; print x(\"1\") }",
-		"BEGIN { o = {} ; o.pluck(o = 1) }", "BEGIN { a = [1] ; a.push(a = 5) ; a.pop(a = \"s\") ; print a }", "BEGIN { s = \"x\" ; s.split(s = 1) ; n = 2.5 ; n.floor(n = []) }",
+		"BEGIN { o = {} ; o.pluck(o = 1) }", "BEGIN { a = [1] ; a.push(a = 5) ; a.pop(a = \"s\") ; print a }", "BEGIN { s = \"x\" ; s.split(s = 1) ; n = 2.5 ; n.floor(n = []) }", "BEGIN { s = \"abc\" ; print s.upper(s = 1) ; t = \"abc\" ; print t.lower(t = []) ; u = \"ab\" ; print u.length(u = {}) }", "BEGIN { o = {a: 1} ; print o.length(o = 1), o ; a = [2, 1] ; print a.sort(a = \"s\"), a.contains(a = 1) }",
 		"BEGIN { o = {a: 1} ; print o.pluck(o = null, \"a\"), o.length(o = 3) }", "BEGIN { a = [3,1] ; print a.sort(a = 0), a.contains(a = {}) }",
 		"BEGIN { while (match (1) { 1 => { break } }) {} }", "BEGIN { for (i = 0; match (i) { x => { continue } }; i++) {} }",
 		"function f(n) { return f(n + 1)" + rep(" + 1", 100) + " } BEGIN { print f(0) }", "function f(n) { return " + rep("!", 120) + "f(n + 1) } BEGIN { print f(0) }",
